@@ -54,6 +54,7 @@ class Assembled:
         self.trusted = []        # external_body / assume_specification / axioms found
         self.uses = []
         self.types = []
+        self.aborts = {}         # fn qual -> property ids owning its abort-freedom obligations
 
     def emit(self, text, kind, info=None, lmap=None, relpath=None):
         ls = text.split("\n")
@@ -104,6 +105,8 @@ def assemble(unit_path, variant=None):
             if variant and variant[0] == "vacuity" and (variant[1] is None or variant[1] == qual) and not ann.get("external_body"):
                 ann["head"] = (ann.get("head") or "") + "\n    proof { /*@VAC*/ assert(false); }\n"
             text, lmap, src, log, labels, it = X.extract_fn(p["relpath"], qual, ann)
+            if "aborts" in p:
+                A.aborts[qual] = p["aborts"]
             start = len(A.lines) + 1
             A.emit(text, "extract", qual, lmap, p["relpath"])
             end = len(A.lines)
@@ -181,6 +184,9 @@ def assemble(unit_path, variant=None):
             if pending is None:
                 raise Inconclusive(f"{unit_path}:{i+1}: //@{d} outside //@fn")
             section = (d, rest)
+        elif d == "aborts":
+            close_section()
+            pending["aborts"] = rest.split()
         elif d == "end":
             close_section(); flush()
         elif d in ("fn", "struct", "enum", "const"):
